@@ -66,8 +66,22 @@ def shards(tier):
 
 
 def build(names):
+    """Blocks are identified by their raw tag '#<position>'; start lines run AGAINST the position order (a library
+    need not be in file order: blocks are added, replaced, parsed into an existing library, sorted before)."""
     f = factories()
-    return Library([f[n](i) for i, n in enumerate(names)])
+    n = len(names)
+    blocks = []
+    for i, name in enumerate(names):
+        b = f[name](i)
+        b._start_line_in_file = 10 * (n - i)
+        if hasattr(b, "_ignore_error_block") and b.ignore_error_block is not None:
+            b.ignore_error_block._start_line_in_file = 10 * (n - i)
+        blocks.append(b)
+    return Library(blocks)
+
+
+def tag(b):
+    return int(b.raw.rsplit("#", 1)[1])
 
 
 def is_comment(b):
@@ -82,14 +96,14 @@ def check(names, lib, order, on_top, acc):
     try:
         out = SortBlocksByTypeAndKeyMiddleware(block_type_order=types, preserve_comments_on_top=on_top).transform(lib)
     except Exception as e:
-        acc.raised[type(e).__name__] += 1
+        acc.exception(e, case, "SortBlocksByTypeAndKeyMiddleware.transform", size=len(names) * 10 + len(order))
         acc.case()
-        return True
+        return False
     inp = lib.blocks
     res = out.blocks
-    acc.case(sample=lambda: dict(case, result=[b.start_line for b in res]), nontrivial_key=(names, order, on_top) if len(names) >= 2 else None)
-    acc.step(("lib", names), ("sort", order, on_top), tuple(b.start_line for b in res))
-    acc.outcome(tuple(b.start_line for b in res))
+    acc.case(sample=lambda: dict(case, result=[tag(b) for b in res]), nontrivial_key=(names, order, on_top) if len(names) >= 2 else None)
+    acc.step(("lib", names), ("sort", order, on_top), tuple(tag(b) for b in res))
+    acc.outcome(tuple(tag(b) for b in res))
 
     def bad(oracle, obs, exp, **sig):
         s = {"oracle": oracle, "comments_on_top": on_top}
@@ -104,7 +118,7 @@ def check(names, lib, order, on_top, acc):
         return bad("input_not_aliased", [describe(o) for o in al[:3]], "no shared mutable object")
     if sorted(canon(b) for b in inp) != sorted(canon(b) for b in res):
         return bad("permutation_of_input_blocks", [type(b).__name__ for b in res], [type(b).__name__ for b in inp])
-    pos_in = {b.start_line: n for n, b in enumerate(inp)}
+    pos_in = {tag(b): n for n, b in enumerate(inp)}
     if len(pos_in) != len(inp):
         return True  # the same object twice in a library: identities are not distinguishable, nothing more to decide
 
@@ -121,23 +135,23 @@ def check(names, lib, order, on_top, acc):
         kx, ky = (rank(x), key(x)), (rank(y), key(y))
         if kx > ky:
             return bad("ordered_by_type_rank_then_key", [(type(b).__name__, key(b)) for b in seq], "non-decreasing (rank, key)", what="rank" if kx[0] > ky[0] else "key")
-        if kx == ky and pos_in[x.start_line] > pos_in[y.start_line]:
-            return bad("ties_keep_input_order", [b.start_line for b in seq], "input order among equal (rank, key)")
+        if kx == ky and pos_in[tag(x)] > pos_in[tag(y)]:
+            return bad("ties_keep_input_order", [tag(b) for b in seq], "input order among equal (rank, key)")
     if on_top:
-        pos_out = {b.start_line: n for n, b in enumerate(res)}
+        pos_out = {tag(b): n for n, b in enumerate(res)}
         for n, b in enumerate(inp):
             if is_comment(b):
                 continue
             run = []
             m = n - 1
             while m >= 0 and is_comment(inp[m]):
-                run.insert(0, inp[m].start_line)
+                run.insert(0, tag(inp[m]))
                 m -= 1
-            o = pos_out[b.start_line]
+            o = pos_out[tag(b)]
             above = []
             m = o - 1
             while m >= 0 and is_comment(res[m]):
-                above.insert(0, res[m].start_line)
+                above.insert(0, tag(res[m]))
                 m -= 1
             if run and above[len(above) - len(run) :] != run:
                 return bad("comment_run_stays_directly_above_its_block", above, run)
